@@ -101,6 +101,11 @@ def run(ctx):
                   for s in (-12, -6, -4, 0, 4, 6, 12)]
         cfgs = [c for c in ctx.corpus if not (c.get("synthetic") or c.get("sweep"))] + \
                [tu.gen_config(ctx.rng) for _ in range(12 if ctx.quick() else 150)]
+        for K1 in (2, 3):
+            # the degenerate but legal shape N = W = 1 (0-d covariances, 1x1 MRFs), scripted every run
+            cfg = tu.gen_config(ctx.rng, joint=False)
+            cfg.update({"N": 1, "W": 1, "K": K1, "lens": [ctx.rng.randint(40, 70)], "regimes": K1})
+            cfgs.append(cfg)
         for i in range(5 if ctx.quick() else 50):
             # a covariance floor that really zeroes entries: P, the log-determinants and the traces must all refer to
             # the RETURNED (filtered) matrices
